@@ -85,17 +85,26 @@ def problem(variant=0):
           "d": {Cores: 1}}
     nets = [Net("a", ["b", "c"], 1.0), Net("c", ["d", "a"], 2.0),
             Net("d", ["d"], 0.5)]
-    if variant:
+    if variant == 1:
         vr["e"] = {Cores: 1}
         nets.append(Net("e", ["a", "b"], 1.0))
-    machine = Machine(3, 2 + variant, chip_resources={Cores: 4, SDRAM: 64},
+    machine = Machine(3, 2 + (variant == 1), chip_resources={Cores: 4, SDRAM: 64},
                       chip_resource_exceptions={(1, 1): {Cores: 3,
                                                          SDRAM: 32}},
-                      dead_chips={(2, 0)} if variant else set(),
+                      dead_chips={(2, 0)} if variant == 1 else set(),
                       dead_links={(0, 0, Links.east)})
     cons = [ReserveResourceConstraint(Cores, slice(0, 1)),
             SameChipConstraint(["a", "b"]),
             LocationConstraint("d", (0, 1))]
+    if variant == 2:
+        # a device vertex with a route endpoint that also belongs to a
+        # same-chip group
+        from rig.place_and_route.constraints import RouteEndpointConstraint
+        from rig.routing_table import Routes
+        vr["dev"] = {}
+        nets.append(Net("a", ["dev"], 1.0))
+        cons.append(RouteEndpointConstraint("dev", Routes.north))
+        cons.append(SameChipConstraint(["dev", "c"]))
     return vr, nets, machine, cons
 
 
@@ -458,6 +467,8 @@ def call_table():
                                           (1, 0), (2, 0)])),
         ("bfs", c_place("breadth_first")),
         ("hilbert", c_place("hilbert", 1)),
+        ("hilbert_dev", c_place("hilbert", 2)),
+        ("route_dev", c_route(20, 2)),
         ("rcm", c_place("rcm")),
         ("rcm_dl", c_place_dl("rcm")),
         ("rand", c_rand()),
